@@ -6,6 +6,8 @@ import (
 	"strings"
 
 	"github.com/krotik/ecal/engine"
+	"github.com/krotik/ecal/interpreter"
+	"github.com/krotik/ecal/util"
 	"simrt"
 	"simrt/simsync"
 	"simrt/simtime"
@@ -29,6 +31,8 @@ type c12Plan struct {
 	Workers int         `json:"workers"`
 	Threads []c12Thread `json:"threads"`
 	Cross   bool        `json:"cross,omitempty"` // extra pair: A waits inside mutex x for a flag B sets inside mutex y
+	Kill    int         `json:"kill,omitempty"`  // >0: an extra thread is suspended by a debugger inside `mutex a` and then killed (StopThreads) after Kill-1 scheduling rounds
+	KillIn  int         `json:"kill_in,omitempty"` // nesting depth (same name) at which the killed thread is suspended
 }
 
 func init() {
@@ -74,10 +78,30 @@ func c12Gen(r *simrt.RNG, tier string) interface{} {
 		p.Threads = append(p.Threads, th)
 	}
 	p.Cross = r.Bool(0.2)
+	if r.Bool(0.1) {
+		p.Kill = 1 + r.Intn(6)
+		p.KillIn = r.Intn(3)
+	}
 	return p
 }
 
 func c12Shrink(pi interface{}) []interface{} {
+	p := pi.(*c12Plan)
+	if p.Kill > 0 {
+		q := *p
+		q.Kill, q.KillIn = 0, 0
+		out := []interface{}{&q}
+		if p.Kill > 1 || p.KillIn > 0 {
+			r := *p
+			r.Kill, r.KillIn = 1, 0
+			out = append(out, &r)
+		}
+		return append(out, c12ShrinkRest(p)...)
+	}
+	return c12ShrinkRest(p)
+}
+
+func c12ShrinkRest(pi interface{}) []interface{} {
 	p := pi.(*c12Plan)
 	var out []interface{}
 	clone := func() *c12Plan {
@@ -214,6 +238,17 @@ func c12Program(p *c12Plan) string {
 		helpers.WriteString("func crossA() {\n    mutex x {\n        enter(\"x\")\n        waitflag()\n        leave(\"x\")\n    }\n    done(-1)\n}\n")
 		helpers.WriteString("func crossB() {\n    mutex y {\n        enter(\"y\")\n        setflag()\n        leave(\"y\")\n    }\n    done(-2)\n}\n")
 	}
+	if p.Kill > 0 {
+		helpers.WriteString("func victim() {\n")
+		for d := 0; d <= p.KillIn; d++ {
+			helpers.WriteString("    mutex a {\n    enter(\"a\")\n")
+		}
+		helpers.WriteString("    kp(1)\n    kp(2)\n")
+		for d := 0; d <= p.KillIn; d++ {
+			helpers.WriteString("    leave(\"a\")\n    }\n")
+		}
+		helpers.WriteString("    done(-3)\n}\n")
+	}
 	b.WriteString(helpers.String())
 	return b.String()
 }
@@ -297,7 +332,23 @@ func c12Run(p *c12Plan) {
 		fmu.Unlock()
 		return nil, nil
 	}})
+	vs.SetValue("kp", &goFunc{name: "kp", f: func(tid uint64, args []interface{}) (interface{}, error) {
+		return nil, nil
+	}})
 	src := c12Program(p)
+	var dbg util.ECALDebugger
+	if p.Kill > 0 {
+		dbg = interpreter.NewECALDebugger(vs)
+		dbg.BreakOnError(false)
+		erp.Debugger = dbg
+		line := 0
+		for i, l := range strings.Split(src, "\n") {
+			if strings.TrimSpace(l) == "kp(1)" {
+				line = i + 1
+			}
+		}
+		dbgCmd(dbg, "C12", fmt.Sprintf("break c12:%d", line))
+	}
 	if _, err := loadProgram(erp, "c12", src, vs); err != nil {
 		simrt.Fail("oracle:setup", "setup", "program does not load: %v\n%s", err, src)
 	}
@@ -330,6 +381,23 @@ func c12Run(p *c12Plan) {
 	if p.Cross {
 		evalThread("crossA", "crossA()")
 		evalThread("crossB", "crossB()")
+	}
+	if p.Kill > 0 {
+		// one more way out of a block: the thread is ended by the debugger while it is
+		// suspended inside. A later entrant must still get in.
+		evalThread("victim", "victim()")
+		var susp []uint64
+		for len(susp) == 0 {
+			simrt.Yield()
+			susp = dbgSuspended(dbg, "C12")
+		}
+		victimTid := susp[0]
+		for i := 1; i < p.Kill; i++ {
+			simrt.Yield()
+		}
+		simrt.Count("fault_thread_killed_inside_mutex")
+		delete(occ["a"], victimTid) // it executes nothing from here on; the lock is held until it has unwound
+		dbg.StopThreads(0)
 	}
 	wg.Wait()
 	simrt.WaitQuiescent()
